@@ -127,45 +127,6 @@ pub fn bytes_via_file(f: impl FnOnce(&Path) -> bool) -> Option<Vec<u8>> {
 }
 
 // ------------------------------------------------------------------------------------------------
-// parsers with inputs that kill the process (see `prescreen` in main.rs)
-
-/// Name fragments of the parsers for which some mutant is known to end in an allocation-failure abort.
-/// (Everything that reads a length / count / original-size field and allocates or loops on it.)
-const FATAL_INPUT_PARSERS: [&str; 27] = [
-    "ComplexTypeSerializer::",
-    "NestedSerialize::",
-    "SerializableType::deserialize<",
-    "SmartPtrSerializer::",
-    "Versioned",
-    "VersionManager::",
-    "VersionProxy<",
-    "::read_length_prefixed_",
-    "_sequence",
-    "CompressorFactory[Huffman]",
-    "CompressorFactory[Rans]",
-    "CompressorFactory[Dictionary]",
-    "CompressorFactory[Hybrid]",
-    "ContextualHuffmanEncoder::deserialize",
-    "Dictionary::deserialize + ",
-    "DictionaryCompressor::decompress",
-    "FseDecoder::",
-    "fse_",
-    "FseCompressor::",
-    "remove_fse_compression",
-    "SimdLz77",
-    "simd_lz77",
-    "PaZipCompressor::",
-    "ZipOffsetBlobStore::",
-    "MmapVec<",
-    "Rans64Decoder<",
-    "Rans64Encoder",
-];
-
-pub fn dies_on_some_inputs(name: &str) -> bool {
-    FATAL_INPUT_PARSERS.iter().any(|f| name.contains(f))
-}
-
-// ------------------------------------------------------------------------------------------------
 // cost control for decompression bombs
 
 /// Address-space limit (MiB) for parsers that can be driven into producing output / looping in
